@@ -47,6 +47,24 @@ CLAIMS = {
     "C11": {"design_ref": "DESIGN.md 7/C11",
             "text": "Coq theorems: the enumeration is every sub-list of the unknown coalitions of length <= k exactly once by increasing size (itertools.combinations model proved in CombsProofs); the reported gap depends only on the set starting knowledge + sequence, is the gap of the game in which exactly that set is known, ignores the state left in the shared game object, and any chunking of the task list over workers equals the sequential map; meta-game value is the same quantity; best-states is a per-size first-argmin of the mean. Correspondence with 1..16 worker processes (stale rows planted in the pickled object), independent per-set gap oracle, per-size optimum oracle. Partial: Pool pickling/chunking is modelled (sr_starmap), not verified.",
             "technique": "Coq proof (enumeration spec, function-of-knowledge, chunking lemma, argmin fold invariant) + multi-process correspondence"},
+    "C05": {"design_ref": "DESIGN.md 7/C05 + DESIGN_NOTES/C05.md",
+            "text": "Coq theorems for ALL n: exploitability = binomially weighted gap (sum exchange; general form with no hypothesis), = summed per-player maximal Shapley value minus v(N); non-negative when lower <= upper; zero iff all intervals degenerate; per-player domination for every completion inside the box; max-gain game inside the box. Correspondence of compute_exploitability and the three norms on objects with bounds set directly (one size widened at a time, swaps visible), n = 2..8, plus Fraction oracle of the right-hand side.",
+            "technique": "Coq proof (sum exchange over player/coalition pairs) + correspondence"},
+    "C06": {"design_ref": "DESIGN.md 7/C06 + DESIGN_NOTES/C06.md",
+            "text": "Coq theorems for ALL n and all games: Shapley value = average marginal contribution over all n! orderings (counting orderings with given predecessors), efficiency, null player, linearity, relabelling by any permutation, both entry points equal; the n <= 7 reflection proof kept as an independent second proof. Correspondence for n = 1..10 on one-hot / unanimity / random games; brute-force ordering oracle n <= 7.",
+            "technique": "Coq proof (counting bijection + reflection on linear forms) + correspondence"},
+    "C10": {"design_ref": "DESIGN.md 7/C10 + DESIGN_NOTES/C10.md",
+            "text": "Coq theorems per generator family for all n and all parameters/draws in the supports: factory, cheerleader, graph, additive, XOS, XS, OXS (min-convolution invariant, loop-faithful _apply_or), K-budget, coverage are superadditive (and monotone where assumed); registry theorem over the GENERATED key list (every key maps to a modelled family with admissible static parameters; 'convex' external). Correspondence with recorded draws for every registry key x n x seeds; oracle on the implementation (runs, shape, dtype, v(empty)=0, class, seed determinism).",
+            "technique": "Coq proof per construction + registry regenerated from /repo on every run + recorded-draw correspondence"},
+    "C12": {"design_ref": "DESIGN.md 7/C12",
+            "text": "Coq theorems: eval_one records the true trajectory (row 0 = gap after the reset with this repetition's hidden game, row t+1 = gap after the t-th chosen coalition in that game, actions = ids revealed, unknown before / known after); with one child stream per environment the hidden games do not depend on sequential/parallel execution nor on the chunking and distinct repetitions read distinct streams; with one shared stream they do (refutation witness 12 repetitions / 2 processes, the defect repaired in /repo a2c763f). Correspondence: replay of recorded actions, model vs implementation for the 'largest' policy, fingerprinted hidden games mapped to draw indices for 1..16 processes. PARTIAL: pickle / multiprocessing.Pool semantics are modelled and validated, not verified. One open known finding (RandomSolver's own random.Random is replayed per chunk).",
+            "technique": "Coq proof over the recording loop and a small stream-wiring model + multi-process correspondence"},
+    "C14": {"design_ref": "DESIGN.md 7/C14 + DESIGN_NOTES/C14.md",
+            "text": "Coq theorems: ranking of coalition sets is a bijection ordered by size for every (nc, limit >= 1); id->rank inverse and total construction for the by-id table, refutation for the by-count table; invariant over ALL histories of non-negative iterations (plain and plus): every current strategy is a distribution supported on unused viable coalitions, regret added is orthogonal to the strategy, plus keeps regret non-negative, no NaN with the clamped limit (refutation for the unclamped one); average strategy distribution; save/load identity. One-step lock-step correspondence (float32 state -> Q) + invariant oracle on the implementation.",
+            "technique": "Coq invariant proof over iteration histories + one-step lock-step correspondence"},
+    "C18": {"design_ref": "DESIGN.md 7/C18 + DESIGN_NOTES/C18.md",
+            "text": "Coalition's one-expression methods are TRANSLATED from /repo into Coq on every run (fail-closed AST translator) and the bitwise specs are proved over the generated definitions for all ids and n; players/size/from_players, both sub-/super-coalition enumerations (object and id-array, exact order) are complete, duplicate-free and permutations of each other; combinations/powerset spec; is_superadditive / is_monotone_decreasing / is_sam / check_supermodularity decide their textbook definitions. Correspondence: all coalitions n = 1..10, all pairs n <= 5 (6 thorough), exhaustive small lattices for the predicates.",
+            "technique": "translation (regenerated each run) + Coq proofs over generated and hand models + exhaustive correspondence"},
 }
 
 PENDING_REASON = "check under construction in this session (DESIGN.md section 9 staging); not claimed until its theorems and correspondence are committed"
